@@ -7,12 +7,14 @@
 package c12sim
 
 import (
+	"bytes"
 	"fmt"
 	"hash/fnv"
 
 	cs "github.com/lianxiangcloud/linkchain/consensus"
 	cstypes "github.com/lianxiangcloud/linkchain/consensus/types"
 	"github.com/lianxiangcloud/linkchain/libs/crypto/merkle"
+	"github.com/lianxiangcloud/linkchain/libs/ser"
 	"github.com/lianxiangcloud/linkchain/types"
 
 	"verif/h/internal/core"
@@ -129,6 +131,27 @@ func run(c *core.Ctx) {
 	if P1 == nil || P2 == nil || P1.BlockID.Equals(P2.BlockID) {
 		c.Inconclusive("could not build two distinct proposals")
 		return
+	}
+	// a quarter of the cases: the victim's proposal is signed over B2's encoding FOLLOWED BY further bytes. A part
+	// set "reassembles byte for byte into the proposer's block or not at all": bytes that are not a block's
+	// encoding must not leave the victim holding a block next to them.
+	switch x := r.Intn(8); {
+	case x < 2:
+		padded := append(append([]byte{}, P2.Bytes...), r.Bytes(1+r.Intn(120))...)
+		P2 = sim.MakeByzProposalOverBytes(bz, H, 0, padded, P2.Block)
+		c.Count("victim_proposals_over_block_plus_trailing_bytes", 1)
+	case x < 4:
+		// the victim's proposal is a TWIN of B1: same header (hence the same block hash) and a body that differs in
+		// a byte no header field commits to (the BlockID recorded inside the last commit), hence another part set.
+		// The polka the victim sees is for B1's part set; what it locks must be what it precommits.
+		var tb *types.Block
+		if ser.DecodeBytes(P1.Bytes, &tb) == nil && tb != nil && tb.LastCommit != nil {
+			tb.LastCommit.BlockID.PartsHeader.Total += 1 + r.Intn(3)
+			if tbz, err := ser.EncodeToBytes(tb); err == nil && !bytes.Equal(tbz, P1.Bytes) && tb.Hash() == P1.Block.Hash() {
+				P2 = sim.MakeByzProposalOverBytes(bz, H, 0, tbz, tb)
+				c.Count("victim_proposals_same_header_twin_of_the_polka_block", 1)
+			}
+		}
 	}
 	// the others see only P1/B1 and prevote it
 	nobody := map[int]bool{-1: true}
